@@ -1,5 +1,6 @@
 import Orb.Proto
 import Orb.WKT
+import Orb.WKTFloat
 
 /-!
   Driver for C04 (WKT text round trip, typed entry points, re-spellings) and the WKT share of C05
@@ -130,13 +131,19 @@ partial def hasEmptyMember : G → Bool
 
 def isColl : G → Bool := isCollection
 
+/-- number of collection levels (0 for a non-collection); tags carry `deep` from three levels on -/
+partial def collDepth : G → Nat
+  | .collection gs => 1 + (gs.map collDepth).foldl max 0
+  | _ => 0
+
+def deepTag (g : G) : String := if collDepth g ≥ 3 then " deep" else ""
+
 def isAlpha (b : UInt8) : Bool := (65 ≤ b && b ≤ 90) || (97 ≤ b && b ≤ 122)
 
-/-- the failure classes of the round trip, in a fixed priority: `multi-empty-member` (recorded finding,
-    DESIGN §7 #16, first so that its label is stable), then the three classes of the letter-splitting
-    `splitGeometryCollection` that /repo 5a01c04 repaired (kept as live clauses: they must not come back) -/
+/-- the failure classes of the round trip for values WITHOUT a `()` member: the three classes of the
+    letter-splitting `splitGeometryCollection` that /repo 5a01c04 repaired (kept as live clauses: they
+    must not come back), at any depth of nesting -/
 def failClass (fmt : UInt64 → Str) (g : G) : String :=
-  if hasEmptyMember g then "multi-empty-member" else
   match g with
   | .collection gs =>
     if gs.any isColl then "collection-nested"
@@ -152,14 +159,50 @@ def expected8 (g : G) : List String :=
   let own := "ok " ++ showGeom g
   own :: (List.range 7).map fun i => if i == kindIdx g then own else "err incorrect"
 
-/-- first violated clause, comparing the implementation's eight outcomes with the expected ones -/
+/-- The recorded finding (DESIGN §7 #16, known_findings `C04-multi-empty-member`) in full: the text of a
+    value with a `()` member is answered `ErrNotWKT` by `Unmarshal` and by the typed function that owns
+    the kind, `ErrIncorrectGeometry` by the six others.  ONLY these eight outcomes are the finding. -/
+def documented8 (g : G) : List String :=
+  "err notwkt" :: (List.range 7).map fun i => if i == kindIdx g then "err notwkt" else "err incorrect"
+
+/-- the label of the recorded finding; every other verdict on a value with a `()` member is a
+    failure of its own -/
+def knownLabel : String := "roundtrip multi-empty-member"
+
+/-- first violated clause, comparing the implementation's eight outcomes with the expected ones.
+    A value with a `()` member gets the recorded label only for exactly the documented outcomes;
+    any other wrong answer on such a value (a wrong value, another error, a typed function out of
+    line) is `empty-member-undocumented`, which no recorded finding matches. -/
 def judge8 (fmt : UInt64 → Str) (g : G) (got : List String) : Option String :=
   let want := expected8 g
   if got.any (· == "panic") then some "panic"
+  else if got == want then none
+  else if hasEmptyMember g then
+    (if got == documented8 g then some knownLabel
+     else some ("empty-member-undocumented " ++ kindName g ++ " got " ++ (tagOf (got.headD "")) ))
   else if got.head? != want.head? then some ("roundtrip " ++ failClass fmt g)
   else if got[kindIdx g + 1]? != want[kindIdx g + 1]? then some ("typed-accept " ++ kindName g)
-  else if got != want then some ("typed-reject " ++ kindName g)
-  else none
+  else some ("typed-reject " ++ kindName g)
+where
+  tagOf (o : String) : String :=
+    match o.splitOn " " with
+    | "ok" :: k :: _ => "ok-" ++ k
+    | "err" :: c :: _ => "err-" ++ c
+    | _ => o
+
+/-! ### the assumptions about `%g` / `ParseFloat`, checked on Go's own answers
+
+  `FloatText` (Orb/WKT.lean) at every finite coordinate: the `%g` text is `gLayout` of some
+  `(sign, digits, dp)` (Orb/WKTFloat.lean; the theorems of OrbProofs.C04Float derive non-emptiness,
+  absence of delimiter bytes and of adjacent letters from that) and `ParseFloat` maps it back to the
+  same bits.  A violation is a disagreement between Go's standard library and what the theorems
+  assume of it, reported as `diff`. -/
+def floatAssumption (f : FT) (pf : Str → Option UInt64) : Option String :=
+  f.findSome? fun (b, s) =>
+    if (b.toNat / 2^52) % 2048 == 2047 then none
+    else if !gShaped b s then some ("diff assumption-gfmt " ++ hexOfStr s)
+    else if pf s != some b then some ("diff assumption-floattext " ++ hexOfStr s)
+    else none
 
 /-! ### re-spelling (mirror of `respellWKT` in harness/c04.go)
 
@@ -228,28 +271,33 @@ def handleRt (inp out : Toks) : String :=
       | [hex] :: outs =>
         if outs.length != 8 then "bad output" else
         let got := joinToks outs
-        -- the executable property is judged on the implementation's outcomes first: it needs neither
-        -- the model's outcomes nor the ParseFloat table
-        let early : Option String := match canonV v with
-          | some g => if isFinite g then (judge8 fmt g got).map ("propfail " ++ ·) else none
-          | none => none
-        if let some pf := early then pf else
-        match modelOutcomes t mtext with
-        | none => "diff table-miss"
-        | some mo =>
-          let agree := hexOfStr mtext == hex && mo == got
-          let fin (s : String) : String :=
-            if s.startsWith "propfail" || agree then s else "diff " ++ hexOfStr mtext ++ " ; " ++ " ; ".intercalate mo
-          fin <|
-          match canonV v with
-          | none => if got.any (· == "panic") then "propfail panic" else "ok triv-nil"
-          | some g =>
-            if !isFinite g then "skip non-finite" else
-            match judge8 fmt g got with
-            | some clause => "propfail " ++ clause
+        let mo? := modelOutcomes t mtext
+        let agree : Bool := match mo? with
+          | some mo => hexOfStr mtext == hex && mo == got
+          | none => false
+        let diffMsg : String := match mo? with
+          | some mo => "diff " ++ hexOfStr mtext ++ " ; " ++ " ; ".intercalate mo
+          | none => "diff table-miss"
+        match canonV v with
+        | none =>
+          if got.any (· == "panic") then "propfail panic" else if agree then "ok triv-nil" else diffMsg
+        | some g =>
+          if !isFinite g then (if agree then "skip non-finite" else diffMsg) else
+          -- the executable property is judged on the implementation's outcomes alone (it needs neither
+          -- the model's outcomes nor the ParseFloat table) and outranks `diff` — EXCEPT the label of the
+          -- recorded finding, which is only given when the model reproduces the documented outcomes too:
+          -- a recorded finding must never absorb a model/implementation disagreement
+          match judge8 fmt g got with
+          | some clause =>
+            if clause == knownLabel then (if agree then "propfail " ++ knownLabel else diffMsg)
+            else "propfail " ++ clause
+          | none =>
+            if !agree then diffMsg else
+            match floatAssumption f (mkParse t none) with
+            | some d => d
             | none =>
               match v with
-              | .val g0 => "ok rt " ++ kindName g0
+              | .val g0 => "ok rt " ++ kindName g0 ++ deepTag g0
               | _ => "ok rt typed-nil"
       | _ => "bad output"
 
@@ -283,8 +331,18 @@ def handleRespell (inp out : Toks) : String :=
           if !isFinite g then "skip non-finite" else
           if got' != got then
             "propfail respell " ++ (if isColl g then "collection-blank" else kindName g)
-          else if mtext' == mtext then "ok triv-respell-identity"
-          else "ok respell " ++ kindName g ++ (if got.head? == (expected8 g).head? then "" else " (both-fail)")
+          else
+          -- the plain text's own outcomes are judged as in `rt`: "both fail alike" is accepted only for
+          -- exactly the documented outcomes of the recorded finding (and, being an `ok`, only when the
+          -- model agrees on both texts); any other failure of the plain text is reported here as well
+          match judge8 fmt g got with
+          | some clause =>
+            if clause == knownLabel then "ok respell " ++ kindName g ++ deepTag g ++ " (both-fail)" else "propfail " ++ clause
+          | none =>
+            match floatAssumption f (mkParse t none) with
+            | some d => d
+            | none =>
+              if mtext' == mtext then "ok triv-respell-identity" else "ok respell " ++ kindName g ++ deepTag g
         | _, _ => "diff table-miss"
       | _ => "bad output"
     | _, _ => "bad respell-of-nil"
